@@ -131,7 +131,7 @@ def case_strategy(draw):
     sources = []
     for _ in range(nfiles):
         kind = draw(st.sampled_from(["good", "good", "good", "good.gz", "missing", "truncated", "garbage", "empty",
-                                     "damaged-exttype", "damaged-subtype"]))
+                                     "damaged-exttype", "damaged-subtype", "joined"]))
         recs = [draw(rec_spec()) for _ in range(draw(st.integers(0, 5)))] if kind not in ("missing", "garbage", "empty") else []
         sources.append({"kind": kind, "recs": recs, "cut": draw(st.integers(0, 10**6)),
                         "garbage": draw(st.binary(min_size=1, max_size=30)) if kind == "garbage" else b""})
@@ -186,6 +186,24 @@ def make_sources(case, tmp):
             open(p, "wb").close()
             paths.append(p)
             expected.append([])
+            continue
+        if kind == "joined":
+            # two complete record streams in one file (cat a.records b.records): a good source like any other
+            half = len(recs) // 2
+            blobs = []
+            for part in (recs[:half], recs[half:]):
+                q = p + ".part"
+                w = RecordWriter(q)
+                for r in part:
+                    w.write(r)
+                w.flush()
+                w.close()
+                blobs.append(open(q, "rb").read())
+                os.unlink(q)
+            with open(p, "wb") as f:
+                f.write(b"".join(blobs))
+            paths.append(p)
+            expected.append(recs)
             continue
         w = RecordWriter(p)
         for r in recs:
@@ -408,7 +426,7 @@ def check(case, ctx, subprocess_mode=False):
         if subprocess_mode:
             env = dict(os.environ, PYTHONPATH=REPO)
             stdin_f = None
-            if case["sources"][0]["kind"] in ("good", "good.gz", "truncated", "damaged-exttype", "damaged-subtype"):
+            if case["sources"][0]["kind"] in ("good", "good.gz", "truncated", "damaged-exttype", "damaged-subtype", "joined"):
                 # the first source arrives on standard input (codec and container are sniffed from the pipe)
                 stdin_f = open(paths[0], "rb")
                 argv[0] = "-"
